@@ -405,6 +405,10 @@ int kx_net_dispatch(char **tok, int ntok, int *handled) {
 		KSI_VerificationContext vc, *pvc = NULL;
 		if (kx_kvl("reusectx", 0)) { KSI_PolicyVerificationResult *pr0 = NULL; if (KSI_VerificationContext_init(&vc, c) != KSI_OK) return -3; vc.signature = s;
 			KSI_SignatureVerifier_verify(KSI_VERIFICATION_POLICY_INTERNAL, &vc, &pr0); KSI_PolicyVerificationResult_free(pr0); pvc = &vc; }
+		/* vcdoc=<imprint> [vclvl=n]: the caller's context names the document hash (and its level) the extended signature has to be for */
+		KSI_DataHash *vcdoc = NULL;
+		if (!pvc && kx_kv("vcdoc")) { int r0 = KSI_OK; if (KSI_VerificationContext_init(&vc, c) != KSI_OK) return -3; vcdoc = hash_arg(c, kx_kv("vcdoc"), &r0); if (!vcdoc) { kx_out(" stage=vcdoc"); return r0; }
+			vc.documentHash = vcdoc; vc.docAggrLevel = kx_kvu("vclvl", 0); pvc = &vc; }
 		if (api && !strcmp(api, "nearest")) rc = KSI_extendSignature(c, s, &e);
 		else if (kx_kv("pubrecfile")) { /* pubrecfile=<publications file slot>:<time>: extend to the publication record (with its references) found in a parsed publications file */
 			KSI_PublicationRecord *pr = NULL; KSI_Integer *t = NULL; const char *a = kx_kv("pubrecfile"); KSI_PublicationsFile *pf = *kx_pubfileslot(atoi(a));
@@ -418,7 +422,8 @@ int kx_net_dispatch(char **tok, int ntok, int *handled) {
 		else if (kx_kv("to")) { KSI_Integer *t = NULL; rc = KSI_Integer_new(c, kx_kvu("to", 0), &t); if (rc) { kx_out(" stage=to"); goto ext_done; } rc = KSI_Signature_extendToWithPolicy(s, c, t, KSI_VERIFICATION_POLICY_INTERNAL, pvc, &e); KSI_Integer_free(t); }
 		else rc = KSI_Signature_extendToWithPolicy(s, c, NULL, KSI_VERIFICATION_POLICY_INTERNAL, pvc, &e);
 ext_done:
-		if (pvc) { vc.signature = NULL; KSI_VerificationContext_clean(&vc); }
+		if (pvc) { if (vcdoc && vc.documentHash != vcdoc) kx_out(" vcdocreplaced=1"); vc.signature = NULL; vc.documentHash = NULL; KSI_VerificationContext_clean(&vc); }
+		KSI_DataHash_free(vcdoc);
 		if (rc != KSI_OK && (kx_kv("pub") || kx_kv("to")) && e == NULL && 0) return rc;
 		if (rc != KSI_OK) out_ksi_err(c);
 		if (rc != KSI_OK && e) kx_out(" objonerr=1");
